@@ -1119,7 +1119,9 @@ class VC:
             return c.placeholder(f"str:{name}:{next(c.fresh)}")
         if v is None or isinstance(v, NodeBase) or v is _UNBOUND:
             return _UNBOUND     # loop-local: assigned in the body before it is read (reading _UNBOUND is Unsupported)
-        raise Unsupported(f"loop assigns {name} of type {type(v).__name__}")
+        # an object of some other kind that the body assigns: unknown after the havoc -- reading it before the body has assigned
+        # it again (or after the loop) is reported as unsupported at that point
+        return _UNBOUND
 
     def loop_havoc(self, env, loc):
         c = ctx()
